@@ -147,6 +147,7 @@ Theorem f7a_unit_clause_refuted :
   T.set_conforms T.Fixed t_number t_name = Some false /\
   T.has_type t_name (inj (CNum 1)) = false.
 Proof. vm_compute. repeat split; reflexivity. Qed.
+Print Assumptions f7a_unit_clause_refuted.
 
 (* N92 (known finding): Decl p0(X) bound [fn:List(/number)] bound [/string].
    Decl p1(X) bound [fn:List(/string)] bound [/string].  Decl p2(X) bound [/string].
@@ -185,6 +186,7 @@ Proof.
       apply sat_nil.
   - intros [r [[Hr|[]] F]]. subst r. inversion F; subst. discriminate.
 Qed.
+Print Assumptions intersection_underapproximated_refuted.
 
 (* ---------------------------------------------------------------------------------
    Added after seeding: programs with UNDECLARED predicates, whose relation types the
